@@ -132,3 +132,14 @@ Theorem C18_json_limit_exact_with_floats :
     jwf f_finite v = true -> val_end tail ->
     (jok (snd (json_value (jwrite json_f64 v ++ tail))) = true <-> jdepth v < JSON_DEPTH).
 Proof. exact (json_value_limit_exact json_f64 f_finite json_f64_reads_all json_f64_head_all). Qed.
+
+(* Detection: the two forms of the JSON trial (theories/JsonTrialModel.v) differ
+   only by the slice form's upfront UTF-8 check, and the trial has no recursion
+   limit at all - so on valid UTF-8 the detection verdict for JSON is the same from
+   a slice and from a reader at EVERY nesting depth (whether the document then
+   translates is the parser's limit, C18_json_limit_exact). *)
+From XtModel Require Import Utf8 JsonTrialModel JsonTrialProofs.
+
+Theorem C18_json_detection_same_from_slice_and_reader_at_every_depth :
+  forall inp : bytes, utf8_valid inp = true -> json_trial_slice inp = json_trial_reader inp.
+Proof. exact json_trial_forms_agree. Qed.
